@@ -110,7 +110,12 @@ fn distinct<'a>(src: &mut Src, cands: &[&'a str], n: usize) -> Vec<&'a str> {
 
 pub fn gen_program(src: &mut Src) -> (String, Vec<String>) {
 	let mut classes = vec![];
-	let code = match src.below(12) {
+	let code = match src.below(13) {
+		12 => {
+			// recursion just below the frame limit (200): whether it fits must not depend on earlier stack-limit hits
+			classes.push("near-limit".to_owned());
+			format!("local f(n) = if n == 0 then 0 else 1 + f(n - 1); f({})", 180 + src.below(20))
+		}
 		0 | 1 => {
 			let n = src.range(5, 60) as usize;
 			if n >= 30 {
@@ -290,7 +295,7 @@ pub fn run(run: &Run) {
 		let k = counter.fetch_add(1, std::sync::atomic::Ordering::SeqCst);
 		check(src, k % 6 == 0)
 	});
-	for c in ["suggestion-tie", "multi-error", "big-object", "history-with-failure", "cli", "stack-limit"] {
+	for c in ["suggestion-tie", "multi-error", "big-object", "history-with-failure", "cli", "stack-limit", "near-limit"] {
 		run.require_class(c, 50);
 	}
 	let _ = HashMap::<u8, u8>::new();
